@@ -112,10 +112,12 @@ func ls2Shapes() []ls2Shape {
 		{-1, 0, 0, -1, 0, []int{256}, 1, 0},
 		{7, 4, 0, -1, 6, []int{32}, 1, 0},
 		{7, 4, 0, 1, 0, []int{32}, 0, 0},
+		{7, 4, 0, 0, 0, []int{32}, 1, 0},
+		{7, 4, 0, -1, 10, []int{32}, 1, 0},
 	}
 	if nd.Thorough() {
 		sh = append(sh,
-			ls2Shape{7, 4, 0, 0, 0, []int{32}, 1, 0},
+			ls2Shape{7, 4, 0, 2, 0, []int{32}, 1, 0},
 			ls2Shape{0, 0, 0, -1, 0, []int{32}, 2, 0},
 			ls2Shape{2, 0, 0, -1, 0, []int{32}, 1, 0},
 			ls2Shape{7, 4, 0, -1, 9, []int{32, 32}, 2, 3},
@@ -206,10 +208,12 @@ func metaShapes() []metaShape {
 		{7, 4, 0, -1, 0, []int{5}, 1},
 		{-1, 0, 0, -1, 0, []int{0, 0}, 0},
 		{1, 0, 2, -1, 0, []int{0}, 0},
+		{7, 4, 0, 0, 0, []int{0}, 0},
 	}
 	if nd.Thorough() {
 		sh = append(sh,
 			metaShape{7, 4, 0, 1, 0, []int{0}, 0},
+			metaShape{7, 4, 0, -1, 10, []int{10}, 0},
 			metaShape{7, 4, 0, -1, 8, []int{6, 0}, 3},
 			metaShape{11, 4, 0, -1, 0, []int{0, 0, 0}, 0},
 			metaShape{7, 4, 0, -1, 0, []int{0, 0, 0, 0, 0, 0, 0, 0, 0, 0, 0, 0, 0, 0, 0, 0}, 0},
@@ -264,9 +268,11 @@ func encShapes() []encShape {
 		{7, -1, 200, 0},
 		{1, -1, 61, 0},
 		{0, -1, 61, 1},
+		{11, 0, 61, 0},
+		{7, 2, 61, 0},
 	}
 	if nd.Thorough() {
-		sh = append(sh, encShape{11, 11, 100, 3}, encShape{7, 1, 61, 0}, encShape{2, -1, 300, 0}, encShape{7, 0, 61, 0})
+		sh = append(sh, encShape{11, 11, 100, 3}, encShape{7, 1, 61, 0}, encShape{2, -1, 300, 0}, encShape{1, 7, 61, 0})
 	}
 	return sh
 }
@@ -369,10 +375,11 @@ func riShapes() []riShape {
 		{-1, 0, 0, nil, 5, 0},
 		{1, 0, 0, []raShape{{0, 0}}, 0, 0},
 		{7, 4, 2, nil, 0, 0},
+		{7, 4, 0, nil, 10, 0},
 	}
 	if nd.Thorough() {
 		sh = append(sh,
-			riShape{7, 4, 0, []raShape{{4, 8}}, 8, 3},
+			riShape{7, 4, 0, []raShape{{4, 10}}, 8, 3},
 			riShape{0, 0, 0, []raShape{{2, 0}}, 0, 0},
 			riShape{2, 0, 0, nil, 0, 0},
 			riShape{7, 4, 0, []raShape{{2, 6}, {2, 6}}, 0, 0},
